@@ -28,11 +28,13 @@ STATE_MEASURE = "distinct (n, computer, revealed set) states at which every solv
 REAL_VS_STUB = {"real": ["solvers.greedy / largest_coalition / random", "run.greedy.get_greedy_rewards",
                          "gameplay.get_stacked_exploitabilities_of_action_sequences", "icg_gym", "bounds"],
                 "stub": ["multiprocessing.Pool -> SimPool in part (ii)"],
-                "seams": ["interrupt injector", "chunk->worker scheduler", "process images"]}
+                "seams": ["interrupt injector", "chunk->worker scheduler", "process images",
+                          "line-granular thread interleaver (sim/simthreads.py): two solver objects asked about two different "
+                          "environments in two caller threads"]}
 ASSUMPTIONS = ["rewards used by the oracle are recomputed on fresh objects (bit-identical to the environment's by C08)",
                "randomised expected-greedy may pick any coalition within its documented 1e-6 of the minimum",
                "expected-greedy is called with a step limit not exceeding the number of explorable coalitions"]
-PROBES = ["second_search_on_same_environment", "solver_reused_on_second_environment", "initial_knowledge_beyond_minimal", "state_with_ties", "state_best_differs_from_worst", "greedy_checked", "greedy_worst_checked",
+PROBES = ["two_solvers_on_two_environments_overlapped_in_threads", "second_search_on_same_environment", "solver_reused_on_second_environment", "initial_knowledge_beyond_minimal", "state_with_ties", "state_best_differs_from_worst", "greedy_checked", "greedy_worst_checked",
           "largest_checked", "random_checked", "expected_greedy", "expected_greedy_randomised",
           "state_after_unstep", "several_sampled_games"]
 TIERS = {
@@ -165,6 +167,9 @@ def check_state(sim: Sim, env, solvers, n, comp_name, gap, hidden, revealed, val
     largest = next(a for a in valid if games.popcount(explorable[a]) == maxsize)
     c = {**ctx, "revealed": sorted(revealed)}
     sim.state(n, comp_name, tuple(sorted(revealed)))
+    if n <= 4 and not getattr(sim, "_c13_overlapped", False) and sim.flip(1, 5, "threads"):
+        sim._c13_overlapped = True  # line tracing makes a greedy probe slow: at most one overlapped pair per run
+        _overlapped_pair(sim, env, solvers, valid, rewards, explorable, c, n, comp_name, gap)
     for name, solver in solvers.items():
         before = em.env_snapshot(env)
         sim.op("next_step", name, mutating=False)
@@ -174,24 +179,79 @@ def check_state(sim: Sim, env, solvers, n, comp_name, gap, hidden, revealed, val
         sim.checked()
         if before != after:
             sim.fail("C13.solver_changed_the_environment", {**c, "solver": name, "fields": em.diff_snapshot(before, after)})
-        if not isinstance(act, (int, np.integer)) or int(act) not in valid:
-            sim.fail("C13.solver_returned_an_invalid_action", {**c, "solver": name, "action": repr(act)})
-        act = int(act)
-        table = {a: float(rewards[a]) for a in valid}
-        if name == "greedy":
-            sim.probe("greedy_checked")
-            if act != best:
-                sim.fail("C13.greedy_did_not_pick_lowest_index_of_maximal_reward", {**c, "picked": act, "expected": best, "rewards": table})
-        elif name == "greedy_worst":
-            sim.probe("greedy_worst_checked")
-            if act != worst:
-                sim.fail("C13.worst_greedy_did_not_pick_lowest_index_of_minimal_reward", {**c, "picked": act, "expected": worst, "rewards": table})
-        elif name == "largest":
-            sim.probe("largest_checked")
-            if act != largest:
-                sim.fail("C13.largest_did_not_pick_lowest_index_among_largest_unknown", {**c, "picked": act, "expected": largest})
-        else:
-            sim.probe("random_checked")
+        _judge(sim, name, act, valid, rewards, explorable, c)
+
+
+def _expected(valid, rewards, explorable):
+    vals = [rewards[a] for a in valid]
+    best = next(a for a in valid if rewards[a] == max(vals))
+    worst = next(a for a in valid if rewards[a] == min(vals))
+    maxsize = max(games.popcount(explorable[a]) for a in valid)
+    largest = next(a for a in valid if games.popcount(explorable[a]) == maxsize)
+    return best, worst, largest
+
+
+def _judge(sim: Sim, name, act, valid, rewards, explorable, c) -> None:
+    best, worst, largest = _expected(valid, rewards, explorable)
+    if not isinstance(act, (int, np.integer)) or int(act) not in valid:
+        sim.fail("C13.solver_returned_an_invalid_action", {**c, "solver": name, "action": repr(act)})
+    act = int(act)
+    table = {a: float(rewards[a]) for a in valid}
+    if name == "greedy":
+        sim.probe("greedy_checked")
+        if act != best:
+            sim.fail("C13.greedy_did_not_pick_lowest_index_of_maximal_reward", {**c, "picked": act, "expected": best, "rewards": table})
+    elif name == "greedy_worst":
+        sim.probe("greedy_worst_checked")
+        if act != worst:
+            sim.fail("C13.worst_greedy_did_not_pick_lowest_index_of_minimal_reward", {**c, "picked": act, "expected": worst, "rewards": table})
+    elif name == "largest":
+        sim.probe("largest_checked")
+        if act != largest:
+            sim.fail("C13.largest_did_not_pick_lowest_index_among_largest_unknown", {**c, "picked": act, "expected": largest})
+    else:
+        sim.probe("random_checked")
+
+
+def _overlapped_pair(sim: Sim, env, solvers, valid, rewards, explorable, c, n, comp_name, gap) -> None:
+    """A second caller thread asks its own solver about its own environment while a solver works on `env`;
+    neither shares an object with the other, so each must answer and leave its environment as if it ran alone."""
+    from incomplete_cooperative.run.model import ModelInstance
+    from incomplete_cooperative.solvers import SOLVERS
+
+    from .. import simthreads
+    comp = games.computer(comp_name)
+    cls = c["class"]
+    with sim.guard("C13.construction_raised"):
+        hidden2, _ = games.draw_game(sim, n, cls)
+        env2 = em.make_env(n, comp_name, em.ListSource([hidden2], n), gap, None)
+        inst2 = ModelInstance(number_of_players=n, seed=sim.choose(1000, "sibling-solver-seed"), unique_name="sim2")
+        expl2 = games.explorable_ids(n)
+        revealed2 = sim.shuffled(list(range(len(expl2))), "sibling-steps")[:sim.choose(max(1, len(expl2) - 1), "sibling-depth")]
+    with sim.guard("C13.environment_raised"):
+        for a in revealed2:
+            env2.step(a)
+    valid2 = [a for a in range(len(expl2)) if a not in revealed2]
+    K2 = games.minimal_ids(n) + [expl2[a] for a in revealed2]
+    rewards2 = {a: -gap(games.fresh(n, comp, K2 + [expl2[a]], hidden2)) for a in valid2}
+    name1 = sim.pick(sorted(solvers), "thread-solver")
+    name2 = sim.pick(sorted(SOLVERS), "sibling-solver")
+    with sim.guard("C13.construction_raised"):
+        solver2 = SOLVERS[name2](inst2)
+    b1, b2 = em.env_snapshot(env), em.env_snapshot(env2)
+    sim.op("next_step-in-two-threads", name1, name2, mutating=False)
+    with sim.guard("C13.solver_raised"):
+        act1, act2 = simthreads.interleave(sim, [lambda: solvers[name1].next_step(env), lambda: solver2.next_step(env2)])
+    sim.probe("two_solvers_on_two_environments_overlapped_in_threads")
+    sim.checked(2)
+    for which, before, e in (("first", b1, env), ("sibling", b2, env2)):
+        after = em.env_snapshot(e)
+        if before != after:
+            sim.fail("C13.solver_changed_the_environment",
+                     {**c, "solver": name1 if which == "first" else name2, "environment": which,
+                      "while": "another thread's solver worked on another environment", "fields": em.diff_snapshot(before, after)})
+    _judge(sim, name1, act1, valid, rewards, explorable, {**c, "while": "overlapped with another thread"})
+    _judge(sim, name2, act2, valid2, rewards2, expl2, {**c, "environment": "sibling", "revealed": sorted(revealed2), "while": "overlapped with another thread"})
 
 
 # -------------------------------------------------------------------------- (ii)
